@@ -20,7 +20,7 @@ class Check(RuntimeCheck):
                 "body, by-value provided method, every mock-induced error kind (no mock impl, no matching pattern, explicit "
                 "panics(), exhausted single-use value, wrong order, wrong inputs, cannot unmock, no default impl, no matcher "
                 "function)} x topology {original only, clone in the same scope, clone alive elsewhere, original behind "
-                "Box / Rc / Arc, original moved into a by-value provided method} x {creator thread, other thread} x {met, "
+                "Box / Rc / Arc, original moved into a by-value provided method, a second mock built (with an unmet expectation / with a live clone) and dropped by a fixture's Drop while the thread is already unwinding} x {creator thread, other thread} x {met, "
                 "unmet expectations}; each scenario runs in the replay process (child of the check): an abort (SIGABRT) is "
                 "detected by the wait status and bisected to the scenario; afterwards remaining instances are used and "
                 "verified. non-trivial = every cell (each drops a mock while its thread is unwinding)")
@@ -48,7 +48,7 @@ class Check(RuntimeCheck):
             ('NoDefaultImpl', T(term(1, 'each', Pat(mask=255, chain=[seg('dfl', 'n2')]))), (1, 0), []),
             ('NoMatcherFunction', T(term(1, 'each', Pat(mask=None, chain=[seg('ret1', 'n2')]))), (1, 0), []),
         ]
-        topo = ['orig', 'clone-in-scope', 'clone-in-scope-first', 'clone-elsewhere', 'clone-errored-elsewhere', 'box', 'rc', 'arc', 'clone-only']
+        topo = ['orig', 'clone-in-scope', 'clone-in-scope-first', 'clone-elsewhere', 'clone-errored-elsewhere', 'box', 'rc', 'arc', 'clone-only', 'fresh-unmet', 'fresh-clone']
         for (cname, tree, (m, a), prior) in crash:
             for tp in topo:
                 for thr in (0, 1):
@@ -72,7 +72,8 @@ class Check(RuntimeCheck):
                         elif tp == 'clone-only':
                             evs.append([f"unwindcall i=1 t={thr} m={m} a={a} also= wrap=0"])
                         else:
-                            evs.append([f"unwindcall i=0 t={thr} m={m} a={a} also= wrap={wrap}"])
+                            fresh = {'fresh-unmet': 1, 'fresh-clone': 2}.get(tp, 0)
+                            evs.append([f"unwindcall i=0 t={thr} m={m} a={a} also= wrap={wrap} fresh={fresh}"])
                         # afterwards: whatever is left is used and verified
                         if tp == 'clone-elsewhere':
                             evs.append(scn.call(1, 1, 0)); evs.append(scn.drop(1))
